@@ -141,6 +141,7 @@ func runC14(w *World, tr *Trace) {
 			return
 		}
 		if op.K == "close" {
+			w.FaultFired("close_injected_mid_run")
 			mu.Lock()
 			closeInvoke = nextSeq()
 			mu.Unlock()
